@@ -1244,6 +1244,17 @@ func (ex *Exec) specForm(st *State, name string, call *ast.CallExpr, sc *SpecCtx
 		}
 		ex.specErr("seen(k) used outside a map range loop invariant")
 		return one(ex.boolVal("false"))
+	case "at":
+		// at(m, k): the value stored under k, without the "absent gives zero" wrapper (meaningful only under in(m, k))
+		m := ex.eval(st, call.Args[0], sc)
+		k := ex.eval(st, call.Args[1], sc)
+		if m.Sh != nil && m.Sh.Kind == "map" {
+			mt := m.T.Underlying().(*types.Map)
+			k = ex.coerceTo(k, mtKey(mt))
+			return one(ex.retype(ex.selectVal(m.kid("val"), k.S), mt.Elem()))
+		}
+		ex.specErr("at: not a modelled map")
+		return one(ex.freshVal(nil, "at"))
 	case "mapset":
 		m := ex.eval(st, call.Args[0], sc)
 		k := ex.eval(st, call.Args[1], sc)
@@ -1797,11 +1808,21 @@ func (ex *Exec) builtin(st *State, name string, call *ast.CallExpr, sc *SpecCtx)
 func (ex *Exec) appendSlice(st *State, s, o *Val, rt types.Type) *Val {
 	n := s.kid("len").S
 	m := o.kid("len").S
+	if n == "0" && s.kid("elems") != nil && o.kid("elems") != nil && shapesCompatible(s.kid("elems").Sh, o.kid("elems").Sh) {
+		// appending to an empty slice: the result holds exactly the appended elements; its backing array is
+		// identified with the source's (elements beyond the length are not observable without re-slicing to cap)
+		sh := s.Sh
+		return &Val{Sh: sh, T: rt, Kids: []*Val{ex.intVal(m, types.Typ[types.Int]), o.kid("elems")}}
+	}
 	r := ex.freshVal(rt, "appended")
 	if rt == nil {
 		r = ex.freshValSh(s.Sh, "appended")
 	}
 	st.assume(eq(r.kid("len").S, "(+ "+n+" "+m+")"))
+	// appending to an empty slice: the backing array is identified with the source's (see above)
+	if r.kid("elems") != nil && o.kid("elems") != nil && r.kid("elems").Sh.IsLeaf() && o.kid("elems").Sh.IsLeaf() && r.kid("elems").Sh.Leaf == o.kid("elems").Sh.Leaf {
+		st.assume(implies(eq(n, "0"), eq(r.kid("elems").S, o.kid("elems").S)))
+	}
 	// element facts, leafwise, for leaf element arrays only
 	ra, sa, oa := r.kid("elems"), s.kid("elems"), o.kid("elems")
 	var walk func(ra, sa, oa *Val)
